@@ -95,6 +95,10 @@ func genC02(rng *rand.Rand, n int, emit func(Case), dist map[string]int) {
 			for q := 0; q < 6 && it < n; q++ {
 				it++
 				reqHost := hosts[rng.Intn(len(hosts))]
+				if reqHost != "" && rng.Intn(4) == 0 {
+					// the same name with a port or a trailing dot is ANOTHER Host value: it belongs to the default router
+					reqHost += []string{":8080", ":443", "."}[rng.Intn(3)]
+				}
 				if rng.Intn(5) == 0 {
 					reqHost = "other.example.com"
 				}
